@@ -1,0 +1,15 @@
+//go:build verif
+
+package event
+
+// Hostile input (property C09): the keys of the replicated subscription / connection sets arrive in gossip
+// payloads; decodeSubscription and decodeConnection are called on every one of them (State.Subscriptions, on the
+// gossip goroutine). Safety for ANY key string and value.
+
+//@ verify decodeSubscription props=C09
+//@ loop decodeSubscription 0 inv inv_decodeSubscription modifies=*
+func inv_decodeSubscription(i int, buffer []byte, e Subscription) bool {
+	return 0 <= i && len(buffer) >= 16 && len(e.Ssid) == (len(buffer)-16)/4
+}
+
+//@ verify decodeConnection props=C09
